@@ -129,10 +129,14 @@ UNIT = {
             ensures=[('boolean_or_null', 'r is Boolean || r is Null'),
                      ('false_iff_equal', '(r == Value::Boolean(false)) <==> veq(lhv, rhv)'),
                      ('negation_of_eq', '!(lhv is Context && rhv is Context) ==> tri_result(r, not3(eq3_flat(lhv, rhv)))')]),
-        clo('build_lt', 'op_lt', ensures=[('order', 'tri_result(r, lt3(ord3(lhv, rhv)))')]),
-        clo('build_le', 'op_le', ensures=[('order', 'tri_result(r, le3(ord3(lhv, rhv)))')]),
-        clo('build_gt', 'op_gt', ensures=[('order', 'tri_result(r, gt3(ord3(lhv, rhv)))')]),
-        clo('build_ge', 'op_ge', ensures=[('order', 'tri_result(r, ge3(ord3(lhv, rhv)))')]),
+        clo('build_lt', 'op_lt', ensures=[('order', 'tri_result(r, lt3(ord3u(lhv, rhv)))')],
+            body_prefix='broadcast use axiom_num_trichotomy, axiom_str_order;\nproof { axiom_string_ord(); }'),
+        clo('build_le', 'op_le', ensures=[('order', 'tri_result(r, le3(ord3u(lhv, rhv)))')],
+            body_prefix='broadcast use axiom_num_trichotomy, axiom_str_order;\nproof { axiom_string_ord(); }'),
+        clo('build_gt', 'op_gt', ensures=[('order', 'tri_result(r, gt3(ord3u(lhv, rhv)))')],
+            body_prefix='broadcast use axiom_num_trichotomy, axiom_str_order;\nproof { axiom_string_ord(); }'),
+        clo('build_ge', 'op_ge', ensures=[('order', 'tri_result(r, ge3(ord3u(lhv, rhv)))')],
+            body_prefix='broadcast use axiom_num_trichotomy, axiom_str_order;\nproof { axiom_string_ord(); }'),
         {'kind': 'fn', 'src': D, 'path': 'impl FeelDate::fn between', 'key': 'compare::FeelDate::between', 'props': P, 'auto_props': A, 'loops': 0, 'ret': 'r',
          'ensures': [('agrees_with_comparisons',
               'r == Some((if left_closed { ord3(Value::Date(*left), Value::Date(*self))->Some_0 != Ordering::Greater } else { ord3(Value::Date(*left), Value::Date(*self))->Some_0 == Ordering::Less }) '
